@@ -36,6 +36,11 @@ func VH_C11a() {
 		vsym.Assume(o.Start == 0)
 	}
 	r, err := o.Range(size)
+	vsym.Observe("err", err != nil)
+	if r != nil {
+		vsym.Observe("start", r.Start)
+		vsym.Observe("length", r.Length)
+	}
 	inv, ws, wl := vhSpecRange(o.Start, o.End, o.FromEnd, size)
 	if err != nil {
 		vsym.Reach("C11a/invalid")
@@ -150,6 +155,12 @@ func VH_C11b() {
 		vsym.Assume(unit[0] != 'b')
 	}
 	got, err := parseRangeHeader(unit + tail)
+	vsym.Observe("err", err != nil)
+	if got != nil {
+		vsym.Observe("start", got.Start)
+		vsym.Observe("end", got.End)
+		vsym.Observe("suffix", got.FromEnd)
+	}
 	if unit != "bytes=" {
 		vsym.Assert(err == ErrInvalidRange, "C11b/non-bytes-unit-rejected")
 		vsym.Reach("C11b/unit")
